@@ -38,6 +38,57 @@ def norm(s):
     return s
 
 
+def _len_forms(fn, o, depth=0, at=None):
+    """Symbolic forms a value can take, by provenance: 'L' (the 16-bit length prefix decoded with from_be_bytes, possibly
+    widened), 'L+2' (that plus the constant 2), '?' (anything else).  Follows variables assigned on several paths and
+    Option payloads stored in one loop round and unpacked in a later one."""
+    from qv import origins
+    if depth > 6:
+        return {'?'}
+    if not is_place(o):
+        return {'?'}
+    c = fn.canon(o['pl'])
+    out = set()
+    for lf in origins.trace(fn, c['l'], origins.norm_path(c['p']), at=at):
+        if lf[0] == 'rv':
+            rv = lf[3]
+            if rv.get('k') == 'bin' and rv['op'] in ('Add', 'AddWithOverflow'):
+                a, b_ = rv['a'], rv['b']
+                if const_int(b_) == 2:
+                    out |= {'L+2'} if _len_forms(fn, a, depth + 1, at=(lf[1], lf[2])) == {'L'} else {'?'}
+                elif const_int(a) == 2:
+                    out |= {'L+2'} if _len_forms(fn, b_, depth + 1, at=(lf[1], lf[2])) == {'L'} else {'?'}
+                else:
+                    out.add('?')
+            elif rv.get('k') == 'cast' and rv['ck'].startswith('IntToInt'):
+                out |= _len_forms(fn, rv['op'], depth + 1, at=(lf[1], lf[2]))
+            elif rv.get('k') == 'use' and is_place(rv['op']) and rv['op']['pl'] != o['pl']:
+                out |= _len_forms(fn, rv['op'], depth + 1, at=(lf[1], lf[2]))
+            else:
+                out.add('?')
+        elif lf[0] == 'call':
+            n = callee_name(lf[2])
+            if n.endswith('<impl u16>::from_be_bytes') and not lf[3]:
+                out.add('L')
+            elif (n.endswith('::from') or n.endswith('::into')) and not lf[3] and len(lf[2]['args']) == 1:
+                out |= _len_forms(fn, lf[2]['args'][0], depth + 1, at=(lf[1], None))
+            else:
+                out.add('?')
+        else:
+            out.add('?')
+    return out or {'?'}
+
+
+def _range_ops(fn, o):
+    """(kind, [operands]) of the Range / RangeFrom aggregate passed as o, or None."""
+    if not is_place(o) or o['pl']['p']:
+        return None
+    sd = fn.single_def(o['pl']['l'])
+    if sd and sd[2] == 'assign' and sd[3]['rv']['k'] == 'agg' and 'ops::Range' in (sd[3]['rv'].get('def') or ''):
+        return sd[3]['rv']['def'].split('::')[-1], sd[3]['rv']['ops'], (sd[0], sd[1])
+    return None
+
+
 def tcp_facts(R, F, fn, who):
     key = fn.gpath
     hm = one(fn, lambda n: n.endswith('Server::<C>::handle_message'))
@@ -46,7 +97,18 @@ def tcp_facts(R, F, fn, who):
         return None
     b, t = hm
     a = [paths.show_operand(fn, x) for x in t['args']]
-    ok = re.search(r'index\(.*,ops::Range\{2_usize,Add\((.*),2_usize\)\}\)$', a[1]) is not None and re.match(r'^ReceivedInfo::new\(.*,Transport::Tcp\{\}\)$', a[2]) is not None and re.search(r'index_mut\(.*,ops::RangeFrom\{2_usize\}\)$', a[3]) is not None
+    # the message is buf[2 .. L + 2], L being the decoded length prefix (by provenance, however the sum is carried around)
+    msg_ok = re.search(r'index\(.*,ops::Range\{2_usize,Add\((.*),2_usize\)\}\)$', a[1]) is not None
+    if not msg_ok and is_place(t['args'][1]):
+        ix = fn.single_def(fn.canon(t['args'][1]['pl'])['l'])
+        for _ in range(4):        # through `&*x` reborrows down to the index call
+            if ix and ix[2] == 'assign' and ix[3]['rv']['k'] in ('ref', 'use'):
+                pl_ = ix[3]['rv']['pl'] if ix[3]['rv']['k'] == 'ref' else (ix[3]['rv']['op'].get('pl') if is_place(ix[3]['rv']['op']) else None)
+                ix = fn.single_def(pl_['l']) if pl_ else None
+        ix = ix if ix and ix[2] == 'call' and callee_name(ix[3]).endswith('::index') else None
+        ro = _range_ops(fn, ix[3]['args'][1]) if ix else None
+        msg_ok = ro is not None and ro[0] == 'Range' and const_int(ro[1][0]) == 2 and _len_forms(fn, ro[1][1], at=ro[2]) == {'L+2'}
+    ok = msg_ok and re.match(r'^ReceivedInfo::new\(.*,Transport::Tcp\{\}\)$', a[2]) is not None and re.search(r'index_mut\(.*,ops::RangeFrom\{2_usize\}\)$', a[3]) is not None
     R.require(ok, 'tcp', key + '|message-slice', fn.where(b), 'handle_message(buf[2..len+2], Tcp, resp[2..])', 'handle_message is called with %s' % [norm(x)[:90] for x in a[1:]])
     bufs = [paths.show_operand(fn, tt['args'][1]) for bb, tt in fn.calls() if callee_name(tt).endswith('vec::from_elem')]
     R.require(bufs == ['Add(2_usize,cast(u16::MAX))'] * 2, 'tcp', key + '|buffer-sizes', fn.where(), 'both buffers are 2 + 65535 octets', 'buffer sizes: %s' % bufs)
@@ -83,6 +145,9 @@ def tcp_facts(R, F, fn, who):
     if ok:
         r_ = paths.show_operand(fn, cw[1]['args'][1])
         ok = re.match(r'^ops::Range\{Add\((.*),2_usize\),(.*)\}$', r_) is not None and const_int(cw[1]['args'][2]) == 0
+        if not ok:
+            ro = _range_ops(fn, cw[1]['args'][1])
+            ok = ro is not None and ro[0] == 'Range' and _len_forms(fn, ro[1][0], at=ro[2]) == {'L+2'} and const_int(cw[1]['args'][2]) == 0
     R.require(ok, 'tcp', key + '|leftover-moved-to-front', fn.where(cw[0]) if cw else fn.where(), 'copy_within(len+2 .. n_read, 0)', 'left-over octets are not moved with copy_within(len+2..n_read, 0)')
     return a
 
